@@ -616,7 +616,7 @@ impl Prop for C04Prop {
 
     fn wall_cap(&self, tier: Tier) -> Duration {
         match tier {
-            Tier::Quick => Duration::from_secs(50),
+            Tier::Quick => Duration::from_secs(150),
             Tier::Thorough => Duration::from_secs(1500),
         }
     }
